@@ -1,0 +1,74 @@
+//! Verification hooks; compiled only under `--cfg zydeco_verif`, absent otherwise.
+//!
+//! A `std` atomic is invisible to a controlled scheduler. This wrapper announces
+//! each operation to a registered scheduling hook and then delegates to `std`, so
+//! that a simulator can interleave tasks between the individual operations of the
+//! process-wide key-space counter.
+
+use std::sync::atomic::{AtomicPtr, Ordering};
+
+static HOOK: AtomicPtr<()> = AtomicPtr::new(std::ptr::null_mut());
+
+/// Register the function called before every operation of a hooked atomic.
+pub fn set_scheduling_hook(hook: fn()) {
+    HOOK.store(hook as *mut (), Ordering::SeqCst);
+}
+
+fn scheduling_point() {
+    let hook = HOOK.load(Ordering::SeqCst);
+    if !hook.is_null() {
+        // SAFETY: only `set_scheduling_hook` stores here, and it stores a `fn()`.
+        let hook: fn() = unsafe { std::mem::transmute(hook) };
+        hook();
+    }
+}
+
+/// `std::sync::atomic::AtomicU64` with a scheduling point before each operation.
+pub struct AtomicU64(std::sync::atomic::AtomicU64);
+
+impl AtomicU64 {
+    pub const fn new(value: u64) -> Self {
+        Self(std::sync::atomic::AtomicU64::new(value))
+    }
+
+    pub fn load(&self, order: Ordering) -> u64 {
+        scheduling_point();
+        self.0.load(order)
+    }
+
+    pub fn store(&self, value: u64, order: Ordering) {
+        scheduling_point();
+        self.0.store(value, order)
+    }
+
+    pub fn swap(&self, value: u64, order: Ordering) -> u64 {
+        scheduling_point();
+        self.0.swap(value, order)
+    }
+
+    pub fn fetch_add(&self, value: u64, order: Ordering) -> u64 {
+        scheduling_point();
+        self.0.fetch_add(value, order)
+    }
+
+    pub fn compare_exchange(
+        &self, current: u64, new: u64, success: Ordering, failure: Ordering,
+    ) -> Result<u64, u64> {
+        scheduling_point();
+        self.0.compare_exchange(current, new, success, failure)
+    }
+
+    pub fn compare_exchange_weak(
+        &self, current: u64, new: u64, success: Ordering, failure: Ordering,
+    ) -> Result<u64, u64> {
+        scheduling_point();
+        self.0.compare_exchange_weak(current, new, success, failure)
+    }
+
+    pub fn fetch_update(
+        &self, set_order: Ordering, fetch_order: Ordering, update: impl FnMut(u64) -> Option<u64>,
+    ) -> Result<u64, u64> {
+        scheduling_point();
+        self.0.fetch_update(set_order, fetch_order, update)
+    }
+}
